@@ -1,8 +1,9 @@
-SPECIFICATION Spec
+SPECIFICATION NegSpec
 CONSTANTS
   W = @W@
   MaxTamper = @MAXT@
   Scope = "@SCOPE@"
   DevChoices = @DEV@
-INVARIANTS Emit TypeOK @INV@
+INVARIANTS TypeOK Witness
+POSTCONDITION Post
 CHECK_DEADLOCK FALSE
